@@ -419,6 +419,6 @@ def strat_iform(draw, tier):
 PARTS = [
     Part("transform", check_transform, strat_transform, quick=4000, thorough=150000),
     Part("model", check_model, lambda tier: strat_model(tier), quick=300, thorough=8000, shrink_quick=False, min_per_shard=4),
-    Part("conditional", check_conditional, lambda tier: strat_conditional(tier), quick=64, thorough=1500, shrink=False, min_per_shard=2, min_nontrivial_frac=0.3),
+    Part("conditional", check_conditional, lambda tier: strat_conditional(tier), quick=64, thorough=1500, shrink=False, min_per_shard=2, min_nontrivial_frac=0.2),
     Part("iform", check_iform, lambda tier: strat_iform(tier), quick=8, thorough=64, shrink=False, min_per_shard=1, max_workers=8),
 ]
